@@ -112,6 +112,17 @@ func C14(ctx *core.Ctx) int {
 	core.Parallel(len(cliProgs), func(i int) {
 		c14CLI(ctx, bin, cliProgs[i], st)
 	})
+	// several targets into one output directory (shareddir.go)
+	var sharedRuns int64
+	core.Parallel(len(cliProgs), func(i int) {
+		if !ctx.Thorough() && i%3 != 0 && !strings.HasPrefix(cliProgs[i].Name, "P6/") {
+			return
+		}
+		n := sharedDirRuns(ctx, bin, cliProgs[i], func(what, detail string, rep map[string]any) {
+			ctx.Report("cli|"+what, detail, rep)
+		})
+		atomic.AddInt64(&sharedRuns, int64(n))
+	})
 	// every generator history up to a depth, each in a process of its own (c14fresh.go)
 	fs := &freshStats{}
 	depth := 2
@@ -124,6 +135,7 @@ func C14(ctx *core.Ctx) int {
 	cov := core.Coverage{
 		"fresh_process_histories": map[string]any{"depth": depth, "programs": fs.programs, "histories": fs.histories, "processes": fs.processes,
 			"rule": "every sequence of 2..depth distinct generators applied to one parsed model in a process of its own; the last generator's files must equal those of a process that ran it alone (sees state kept outside the model, in any order, which neither the model dump nor the command line's fixed order can)"},
+		"shared_output_directory_runs":  sharedRuns,
 		"states":                        st.states,
 		"transitions":                   st.transitions,
 		"traces_validated_against_impl": st.traces,
